@@ -350,6 +350,11 @@ class C06(Property):
             "inspect_first": [nm for nm in INSPECT
                               if W.chance("inspect", 1, 8)],
             "memory": shape == "zeronum" or W.chance("memory", 1, 4),
+            # a decoy filter is built and called first: the same tree with
+            # another constant a0 / other constants (state kept across
+            # separate filter objects - a cache keyed on part of a filter -
+            # shows inside this very run)
+            "decoy": W.pick("decoy", [None, None, "a0", "consts"]),
             # clause (6): a second filter derived from this one (3*f, -f)
             # while both read their coefficient streams through 2-use hubs;
             # both are called, in this order / interleaved
@@ -486,6 +491,23 @@ class C06(Property):
     return 4
 
   # ------------------------------------------------------------ construction
+  @staticmethod
+  def decoy_tree(t, how):
+    """ The same tree with other constants (see "decoy"). """
+    if isinstance(t, dict):
+      out = dict((k, C06.decoy_tree(v, how)) for k, v in t.items())
+      if t.get("op") == "single" and how == "a0":
+        out["den"] = [[k, (["c", 2 if c[1] == 1 else 1]
+                           if k == 0 and c[0] == "c" else c)]
+                      for k, c in out["den"]]
+      return out
+    if isinstance(t, list):
+      if how == "consts" and len(t) == 2 and t[0] == "c" and \
+         isinstance(t[1], int):
+        return ["c", t[1] + 1 if t[1] not in (-1, 0) else 3]
+      return [C06.decoy_tree(v, how) for v in t]
+    return t
+
   @staticmethod
   def hubbed_tree(t):
     """ The same single filter with every stream coefficient read through a
@@ -941,6 +963,16 @@ class C06(Property):
         res.counters["probe.non-zero-memory"] += 1
       ys = simulate(xs, memory)
 
+    # ---- the decoy: built and called before the filter under test
+    if wl.get("decoy"):
+      dtree = self.decoy_tree(tree, wl["decoy"])
+      try:
+        fX = self.build(dtree, self.make_sources(wl, self.tree_sids(dtree)))
+        list(fX([x_value(i) for i in range(4)],
+                zero=Fraction(0)).take(4))
+        res.counters["probe.decoy-filter-called-first"] += 1
+      except Exception:
+        pass          # a decoy that cannot run (a0 = 0 ...) decides nothing
     # ---- build B: run with read accounting
     srcB = self.make_sources(wl, sids)
     xsrc = SimSource(0, wl["xlen"], x_value, name="input")
